@@ -117,6 +117,28 @@ def run(ctx, model=None):
                     ctx.violation("conditioning-by-truth-value-of-the-flag", {"game": gen.desc(g), "prune_states": flag},
                                   {"with_" + repr(flag): [a["outcome"], repr(a.get("nodes"))[:300]], "with_" + repr(ref): [b["outcome"], repr(b.get("nodes"))[:300]]})
                     break
+    # an application may subclass the node classes (a coordinate, a label): conditioning treats such nodes as what they are
+    from crlib import repo as _repo
+    _tad = _repo("tad")
+    _orig = (_tad.PlayerOne, _tad.PlayerTwo, _tad.ProbabilisticNode)
+    for kind in (PR, P1):
+        for pat in gen.all_patterns(3):
+            g = gen.dead_shape_game(rng, kind, pat)
+            ref = impl.solve(g, True, limit=5.0)
+            try:
+                _tad.PlayerOne = type("BoardPlayerOne", (_orig[0],), {})
+                _tad.PlayerTwo = type("BoardPlayerTwo", (_orig[1],), {})
+                _tad.ProbabilisticNode = type("BoardProbabilisticNode", (_orig[2],), {})
+                sub = impl.solve(g, True, limit=5.0)
+            finally:
+                _tad.PlayerOne, _tad.PlayerTwo, _tad.ProbabilisticNode = _orig
+            ctx.case({"game": gen.desc(g), "node_classes": "subclassed"}, True)
+            if "Timeout" in (ref["outcome"], sub["outcome"]):
+                continue
+            if ref["outcome"] != sub["outcome"] or repr(ref.get("nodes")) != repr(sub.get("nodes")):
+                ctx.violation("conditioning-of-subclassed-nodes", {"game": gen.desc(g), "node_classes": "subclassed"},
+                              {"plain": [ref["outcome"], repr(ref.get("nodes"))[:300]], "subclassed": [sub["outcome"], repr(sub.get("nodes"))[:300]]})
+                break
     import analysis as _an
     _an.optimized_interpreter(ctx, [gen.dead_shape_game(rng, kind, pat) for kind in (PR, P1) for pat in gen.all_patterns(3)][:16],
                               "no-dead-successor", fields=[2, 3, 6, 7])
